@@ -1,0 +1,39 @@
+//go:build verif
+
+package call
+
+// Contracts checked by /verif (vcgo). Comment-only: no executable code.
+// C03: the generated chain is a sequence of lines; every direct callee of the root is an edge line of the chain;
+// generation terminates within the fixed expansion budget.
+
+//@ spec Esc(s string) string := ReplaceAll(s, "\"", "\\\"")
+//@ spec EL(a string, b string) string := "\"" + Esc(a) + "\" -> \"" + Esc(b) + "\";\n"
+//@ spec opaque HasLine(g string, l string) bool := Contains("\n" + g, "\n" + l)
+//@ spec opaque IsPrefix(x string, y string) bool := HasPrefix(y, x)
+//@ spec LinesEnd(g string) bool := g == "" || HasSuffix(g, "\n")
+//@ spec opaque Subst(child string, di map[string]string) string :=
+//@    (jpackage.GetClassName(child) in di) ? (di[jpackage.GetClassName(child)] + "." + jpackage.GetMethodName(child)) : child
+
+// string-theory facts used under quantifiers (each is proved by the solvers as a ground query, see `lemma`)
+//@ lemma HasLine_mono: forall x string, y string, l string :: {HasLine(x, l), IsPrefix(x, y)} HasLine(x, l) && IsPrefix(x, y) ==> HasLine(y, l)
+//@ lemma HasLine_last: forall x string, l string :: {HasLine(x + l, l)} LinesEnd(x) ==> HasLine(x + l, l)
+
+//@ func escapeStr
+//@ pure
+//@ ensures result == Esc(caller)
+
+//@ func ToGraphviz
+//@ ensures result == "digraph G {\nrankdir = LR;\n" + chain + "}\n"
+
+//@ func BuildCallChain
+//@ modifies loopCount
+//@ decreases maxLoopCount + 1 - loopCount
+//@ ensures loopCount >= old(loopCount)
+//@ ensures HasSuffix(result, "\n")
+//@ ensures old(loopCount) <= maxLoopCount ==> (forall i int :: {methodMap[funcName][i]} 0 <= i && i < len(methodMap[funcName]) ==>
+//@    HasLine(result, EL(funcName, Subst(methodMap[funcName][i], diMap))))
+//@ loop 1 invariant loopCount >= old(loopCount) + 1
+//@ loop 1 invariant LinesEnd(arrayResult) && (#i > 0 ==> arrayResult != "")
+//@ loop 1 invariant forall j int :: {methodMap[funcName][j]} 0 <= j && j < #i ==> HasLine(arrayResult, EL(funcName, Subst(methodMap[funcName][j], diMap)))
+//@ loop 1 assert IsPrefix(arrayResult@pre, arrayResult)
+//@ loop 1 assert HasLine(arrayResult, EL(funcName, Subst(methodMap[funcName][#i - 1], diMap)))
